@@ -122,3 +122,69 @@ pub fn crc32_ref(d: &[u8]) -> u32 {
     }
     !crc
 }
+
+pub fn be16(b: &[u8], o: usize) -> usize {
+    ((b[o] as usize) << 8) | b[o + 1] as usize
+}
+
+/// CRC the parser/builder must use for a FINGERPRINT at attribute offset `off`: the message up
+/// to `off` with the length field rewritten to cover the attribute (RFC 8489 s14.7), using the
+/// independent bitwise CRC.  Only used natively (replay) -- under Kani the recorder stub stands
+/// in for the CRC.
+pub fn native_fp_value(b: &[u8], off: usize) -> [u8; 4] {
+    let mut v = b[..off].to_vec();
+    let l = (off + 8 - 20) as u16;
+    v[2] = (l >> 8) as u8;
+    v[3] = l as u8;
+    let c = crc32_ref(&v) ^ 0x5354_554e;
+    c.to_be_bytes()
+}
+
+pub fn realize_mask() -> u32 {
+    std::env::var("VERIF_REALIZE").ok().and_then(|s| s.parse().ok()).unwrap_or(0)
+}
+
+/// Native replay only: make the counterexample realisable with the real primitives.  The k-th
+/// seal attribute (MESSAGE-INTEGRITY, MESSAGE-INTEGRITY-SHA256, FINGERPRINT in wire order) gets
+/// its genuine value when bit k of `mask` is set -- the stubbed run decided the property for
+/// every hash value, and a later seal covers an earlier one, so patching front to back keeps the
+/// structure of the counterexample (DESIGN 2.4).
+pub fn native_realize(b: &mut [u8], len: usize, key: &[u8], mask: u32) {
+    if len < 20 {
+        return;
+    }
+    let mut o = 20;
+    let mut k = 0;
+    while o + 4 <= len {
+        let t = be16(b, o) as u16;
+        let l = be16(b, o + 2);
+        let padded = (l + 3) & !3;
+        if o + 4 + padded > len {
+            return;
+        }
+        if t == 0x8028 || t == 0x0008 || t == 0x001C {
+            if (mask >> k) & 1 == 1 {
+                if t == 0x8028 && l == 4 {
+                    let v = native_fp_value(b, o);
+                    b[o + 4..o + 8].copy_from_slice(&v);
+                } else if t == 0x0008 && l == 20 {
+                    let mut d = b[..o].to_vec();
+                    let nl = (o + 24 - 20) as u16;
+                    d[2] = (nl >> 8) as u8;
+                    d[3] = nl as u8;
+                    let h = stun_types::attribute::MessageIntegrity::compute(&d, key).unwrap();
+                    b[o + 4..o + 24].copy_from_slice(&h);
+                } else if t == 0x001C && l >= 16 && l <= 32 && l % 4 == 0 {
+                    let mut d = b[..o].to_vec();
+                    let nl = (o + 4 + l - 20) as u16;
+                    d[2] = (nl >> 8) as u8;
+                    d[3] = nl as u8;
+                    let h = stun_types::attribute::MessageIntegritySha256::compute(&d, key).unwrap();
+                    b[o + 4..o + 4 + l].copy_from_slice(&h[..l]);
+                }
+            }
+            k += 1;
+        }
+        o += 4 + padded;
+    }
+}
